@@ -38,14 +38,14 @@ Proof.
 Qed.
 
 Lemma read_sig U R i tk iv : decl_of p i = DSig tk iv ->
-  forall m c s stk t s' v, i < t -> Inv stk t s -> ctx_ok stk c -> TopOK c s ->
+  forall m c s stk t s' v, i < t -> CtxDep p c i -> Inv stk t s -> ctx_ok stk c -> TopOK c s ->
   node_read p U R m c i s = (s', v) ->
   Inv stk t s' /\ TopOK c s' /\ PullRel (S i) stk (fst c) s s' /\
   (memob i = true -> st (getn s' i) = Clean /\ cache (getn s' i) = Some v) /\
   (sigb i = true -> v = sval (getn s' i)) /\
   Growth c s s' (fun D => forall rest, rlvl p (S i) m (snd c) i (D ++ rest) = Some (v, rest)).
 Proof.
-  intros Hd m c s stk t s' v Hit I C T Hr. unfold node_read in Hr. rewrite Hd in Hr.
+  intros Hd m c s stk t s' v Hit Hcd I C T Hr. unfold node_read in Hr. rewrite Hd in Hr.
   assert (Hnm : memob i = false) by (unfold GraphInvariant.memob; rewrite Hd; auto).
   assert (Hwr : forall w, fst c = Some w -> w < nlen s).
   { intros w Hw. pose proof (who_on_stack stk c w C Hw) as Hin.
@@ -57,7 +57,7 @@ Proof.
   - (* tracked *)
     apply andb_prop in Et as [-> Hs].
     destruct (obs_of_tracked c stk C Hs) as (o & Hw & Ho).
-    destruct (Inv_track p stk t c o i s I C Ho T Hit) as (I1 & Hp & P1 & Hsro & Hrl & _).
+    destruct (Inv_track p stk t c o i s I C Ho T Hit (Hcd o Hw)) as (I1 & Hp & P1 & Hsro & Hrl & _).
     set (s1 := track c i s) in *. inversion Hr; subst s' v. clear Hr.
     destruct (Inv_log_tracked p stk t c o i (sval (getn s1 i)) s1 I1 C Hw) as (I2 & T2 & P2); auto.
     + intros k x Hk Hko Hx. rewrite Hsro in Hx by auto. rewrite Hrl.
@@ -88,14 +88,14 @@ Proof.
 Qed.
 
 Lemma read_der U R i e : decl_of p i = DDer e -> RSpec i R ->
-  forall m c s stk t s' v, i < t -> Inv stk t s -> ctx_ok stk c -> TopOK c s ->
+  forall m c s stk t s' v, i < t -> CtxDep p c i -> Inv stk t s -> ctx_ok stk c -> TopOK c s ->
   node_read p U R m c i s = (s', v) ->
   Inv stk t s' /\ TopOK c s' /\ PullRel (S i) stk (fst c) s s' /\
   (memob i = true -> st (getn s' i) = Clean /\ cache (getn s' i) = Some v) /\
   (sigb i = true -> v = sval (getn s' i)) /\
   Growth c s s' (fun D => forall rest, rlvl p (S i) m (snd c) i (D ++ rest) = Some (v, rest)).
 Proof.
-  intros Hd HR m c s stk t s' v Hit I C T Hr. unfold node_read in Hr. rewrite Hd in Hr.
+  intros Hd HR m c s stk t s' v Hit Hcd I C T Hr. unfold node_read in Hr. rewrite Hd in Hr.
   assert (Hnm : memob i = false) by (unfold GraphInvariant.memob; rewrite Hd; auto).
   assert (Hns : sigb i = false) by (unfold GraphInvariant.sigb; rewrite Hd; auto).
   assert (Hil : i < length p).
@@ -108,7 +108,10 @@ Proof.
   assert (T' : TopOK c' s) by (unfold TopOK in *; rewrite Hfc; auto).
   destruct (eval p R false c' e s) as [s2 x] eqn:Ev.
   inversion Hr; subst s' v. clear Hr.
-  destruct (eval_spec p i R HR e c' s stk t s2 x Hok ltac:(lia) I C' T' Ev) as (I2 & T2 & P2 & G2).
+  assert (Hdp : forall x, occurs x e -> CtxDep p c' x).
+  { intros y Hy w Hw. rewrite Hfc in Hw. eapply dep_trans; [apply (Hcd w Hw)|].
+    apply dep_one. unfold dep1. rewrite Hd. exact Hy. }
+  destruct (eval_spec p i R HR e c' s stk t s2 x Hok Hdp ltac:(lia) I C' T' Ev) as (I2 & T2 & P2 & G2).
   assert (Hsc : snd c' = m && snd c) by (unfold c'; destruct m; reflexivity).
   rewrite log_read_nolog.
   split; [apply Inv_emit; auto|]. split.
